@@ -535,6 +535,236 @@ theorem cons_tryParse {n : Nat} {p : P} (h1 : Consuming n p) : Consuming n (tryP
     | internal => simp at hr
     | diverged => simp at hr
 
+/-! ### `_match_text_seq`, the Command tail, `if _match_set(…)` dispatch, dispatch-table loops -/
+
+theorem textSeqGo_spec (toks : List Tok) : ∀ (ts : List Tok) (s : St), s.idx ≤ toks.length →
+    s.idx ≤ (textSeqGo toks ts s).2.idx ∧ (textSeqGo toks ts s).2.idx ≤ toks.length ∧
+      (textSeqGo toks ts s).2.steps ≤ s.steps + ts.length ∧
+      ((textSeqGo toks ts s).1 = true → (textSeqGo toks ts s).2.idx = s.idx + ts.length) := by
+  intro ts
+  induction ts with
+  | nil => intro s hs; simp [textSeqGo, hs]
+  | cons t ts ih =>
+    intro s hs
+    unfold textSeqGo
+    split
+    · rename_i hc
+      have hlt := curr_lt hc
+      have e1 : (bump 1 s).idx = s.idx + 1 := rfl
+      have e2 : (bump 1 s).steps = s.steps + 1 := rfl
+      obtain ⟨a1, a2, a3, a4⟩ := ih (bump 1 s) (by omega)
+      refine ⟨by omega, a2, by simp only [List.length_cons]; omega, ?_⟩
+      intro h; have := a4 h; simp only [List.length_cons]; omega
+    · simp [hs]
+
+theorem sound_textSeq (toks : List Tok) (ts : List Tok) (adv : Bool) :
+    Sound toks.length (fun _ => ts.length + 1) (matchTextSeq toks ts adv) := by
+  intro s hs
+  obtain ⟨a1, a2, a3, _⟩ := textSeqGo_spec toks ts s hs
+  unfold matchTextSeq
+  cases hg : textSeqGo toks ts s with
+  | mk ok s1 =>
+    rw [hg] at a1 a2 a3
+    simp only at a1 a2 a3
+    have r1 := retreat_steps s.idx s1
+    cases ok with
+    | true =>
+      simp only
+      cases adv with
+      | true => exact ⟨by simpa using a1, by simpa using a2, by simp only [if_true]; omega, by simp, by simp⟩
+      | false =>
+        exact ⟨by simp [retreat_idx], by simp [retreat_idx, hs], by simp only [Bool.false_eq_true, if_false]; omega,
+          by simp, by simp⟩
+    | false =>
+      exact ⟨by simp [retreat_idx], by simp [retreat_idx, hs], by simp only; omega, by simp, by simp⟩
+
+/-- `_match_text_seq` is Restoring: a partial match is undone -/
+theorem textSeq_restoring (toks : List Tok) (ts : List Tok) (adv : Bool) : Restoring (matchTextSeq toks ts adv) := by
+  intro s v s' hr hv
+  unfold matchTextSeq at hr
+  cases hg : textSeqGo toks ts s with
+  | mk ok s1 =>
+    rw [hg] at hr
+    cases ok with
+    | true => simp only at hr; injection hr with e1 _; injection e1 with e1; subst e1; simp [Val.isTruthy] at hv
+    | false => simp only at hr; injection hr with _ e2; subst e2; exact retreat_idx _ _
+
+theorem textSeq_still (toks : List Tok) (ts : List Tok) : Still (matchTextSeq toks ts false) := by
+  intro s v s' hr
+  unfold matchTextSeq at hr
+  cases hg : textSeqGo toks ts s with
+  | mk ok s1 =>
+    rw [hg] at hr
+    cases ok with
+    | true =>
+      simp only [Bool.false_eq_true, if_false] at hr
+      injection hr with _ e2; subst e2; exact retreat_idx _ _
+    | false => simp only at hr; injection hr with _ e2; subst e2; exact retreat_idx _ _
+
+theorem textSeq_consuming (toks : List Tok) (ts : List Tok) (hne : ts.isEmpty = false) :
+    Consuming toks.length (matchTextSeq toks ts true) := by
+  intro s v s' hs hr hv
+  obtain ⟨_, _, _, a4⟩ := textSeqGo_spec toks ts s hs
+  unfold matchTextSeq at hr
+  cases hg : textSeqGo toks ts s with
+  | mk ok s1 =>
+    rw [hg] at hr a4
+    cases ok with
+    | true =>
+      simp only [if_true] at hr
+      injection hr with _ e2; subst e2
+      have := a4 rfl
+      have : 0 < ts.length := by
+        cases ts with
+        | nil => simp at hne
+        | cons _ _ => simp
+      simp only at *
+      omega
+    | false => simp only at hr; injection hr with e1 _; injection e1 with e1; subst e1; simp [Val.isTruthy] at hv
+
+theorem sound_restOfChunk (toks : List Tok) : Sound toks.length (fun r => r) (restOfChunk toks) := by
+  intro s hs
+  unfold restOfChunk Good
+  simp only
+  split
+  · refine ⟨by simp only; omega, by simp, by simp, by simp, by simp⟩
+  · exact ⟨by simp, hs, by simp, by simp, by simp⟩
+
+/-- the Command fallback leaves nothing behind: the cursor ends exactly at the end of the chunk -/
+theorem restOfChunk_idx (toks : List Tok) (s : St) (hs : s.idx ≤ toks.length) :
+    (restOfChunk toks s).2.idx = toks.length ∧ (restOfChunk toks s).1 = .ret .truthy := by
+  unfold restOfChunk
+  simp only
+  split
+  · simp
+  · exact ⟨by omega, by simp⟩
+
+theorem inSet_lt' {toks : List Tok} {ts : List Tok} {i : Nat} (h : inSet ts (curr toks i) = true) :
+    i < toks.length := inSet_lt h
+
+theorem sound_ifTok {toks : List Tok} {ts : List Tok} {bp bq : Nat → Nat} {p q : P}
+    (hp : Sound toks.length bp p) (hq : Sound toks.length bq q) (mp : BMono bp) :
+    Sound toks.length (fun r => bp r + bq r + 1) (ifTokS toks ts p q) := by
+  intro s hs
+  unfold ifTokS
+  split
+  · rename_i hc
+    have hlt := inSet_lt hc
+    have e1 : (bump 1 s).idx = s.idx + 1 := rfl
+    have e2 : (bump 1 s).steps = s.steps + 1 := rfl
+    obtain ⟨c1, c2, c3, c4, c5⟩ := hp (bump 1 s) (by omega)
+    simp only [e1, e2] at c1 c3
+    have m := mp (toks.length - (s.idx + 1)) (toks.length - s.idx) (by omega)
+    exact ⟨by omega, c2, by simp only; omega, c4, c5⟩
+  · obtain ⟨c1, c2, c3, c4, c5⟩ := hq s hs
+    exact ⟨c1, c2, by simp only; omega, c4, c5⟩
+
+theorem cons_ifTok {toks : List Tok} {ts : List Tok} {bp : Nat → Nat} {p q : P}
+    (hp : Sound toks.length bp p) (hq : Consuming toks.length q) : Consuming toks.length (ifTokS toks ts p q) := by
+  intro s v s' hs hr hv
+  unfold ifTokS at hr
+  split at hr
+  · rename_i hc
+    have hlt := inSet_lt hc
+    have e1 : (bump 1 s).idx = s.idx + 1 := rfl
+    have g := hp (bump 1 s) (by omega)
+    rw [hr] at g
+    obtain ⟨c1, _, _, _, _⟩ := g
+    simp only [e1] at c1
+    omega
+  · exact hq s v s' hs hr hv
+
+theorem ifTok_total (toks : List Tok) (ts : List Tok) (p q : P) (hp : Total p) (hq : Total q) :
+    Total (ifTokS toks ts p q) := by
+  intro s v s' hr
+  unfold ifTokS at hr
+  split at hr
+  · exact hp _ _ _ hr
+  · exact hq _ _ _ hr
+
+theorem ifTok_restoring (toks : List Tok) (ts : List Tok) (p q : P) (hp : Total p) (hq : Restoring q) :
+    Restoring (ifTokS toks ts p q) := by
+  intro s v s' hr hv
+  unfold ifTokS at hr
+  split at hr
+  · have := hp _ _ _ hr; simp_all
+  · exact hq _ _ _ hr hv
+
+theorem keyOf_some_lt {toks : List Tok} {keys : List Tok} {i : Nat} {k : Tok}
+    (h : keyOf keys (curr toks i) = some k) : i < toks.length := by
+  cases hc : curr toks i with
+  | none => simp [hc, keyOf] at h
+  | some t => exact curr_lt hc
+
+theorem table_arith {k B S0 S1 S F r1 b1 : Nat} (h0 : S0 ≤ S + 1) (h1 : S1 ≤ S0 + B)
+    (h3 : F ≤ S1 + (r1 + 1) * (b1 + 1)) (h4 : (r1 + 1) * (b1 + 1) ≤ (k + 1) * (B + 1)) :
+    F ≤ S + (k + 1 + 1) * (B + 1) := by
+  rw [Nat.succ_mul]; omega
+
+/-- a dispatch-table loop around ANY entries that honour the contract and make progress whenever they report success
+    (automatic when the caller consumed the key; `Consuming` entries when the key was only peeked) -/
+theorem good_tableLoop {toks : List Tok} {keys : List Tok} {consume : Bool} {b : Nat → Nat} {entry : Tok → P}
+    (he : ∀ k, Sound toks.length b (entry k)) (mb : BMono b)
+    (hprog : consume = true ∨ ∀ k, Consuming toks.length (entry k)) :
+    ∀ (fuel : Nat) (acc : Val) (s : St), s.idx ≤ toks.length → toks.length - s.idx < fuel →
+      Good toks.length (fun r => (r + 1) * (b r + 1)) s (tableLoop toks keys consume entry fuel acc s) := by
+  intro fuel
+  induction fuel with
+  | zero => intro acc s _ h; omega
+  | succ fuel ih =>
+    intro acc s hs hf
+    unfold tableLoop
+    cases hk : keyOf keys (curr toks s.idx) with
+    | none =>
+      simp only
+      exact ⟨by simp, hs, by simp, by simp, by simp⟩
+    | some k =>
+      simp only
+      have hlt := keyOf_some_lt hk
+      have hs0 : (if consume then bump 1 s else s).idx ≤ toks.length := by
+        cases consume <;> simp [bump] <;> omega
+      have h1 := he k (if consume then bump 1 s else s) hs0
+      cases hps : entry k (if consume then bump 1 s else s) with
+      | mk o s1 =>
+        rw [hps] at h1
+        obtain ⟨a1, a2, a3, a4, a5⟩ := h1
+        simp only at a1 a2 a3 a4 a5
+        have i0 : s.idx ≤ (if consume then bump 1 s else s).idx := by cases consume <;> simp [bump]
+        have st0 : (if consume then bump 1 s else s).steps ≤ s.steps + 1 := by cases consume <;> simp [bump]
+        obtain ⟨kk, hkk⟩ : ∃ kk, toks.length - s.idx = kk + 1 := ⟨toks.length - s.idx - 1, by omega⟩
+        have m0 := mb (toks.length - (if consume then bump 1 s else s).idx) (kk + 1) (by omega)
+        cases o with
+        | ret v =>
+          simp only
+          split
+          · rename_i hv
+            have hprogress : s.idx < s1.idx := by
+              cases hprog with
+              | inl hc => subst hc; simp [bump] at a1; omega
+              | inr hc => have := hc k _ v s1 hs0 hps hv; omega
+            obtain ⟨c1, c2, c3, c4, c5⟩ := ih .truthy s1 a2 (by omega)
+            simp only at c3
+            refine ⟨by omega, c2, ?_, c4, c5⟩
+            have m1 := mb (toks.length - s1.idx) (kk + 1) (by omega)
+            have m3 : (toks.length - s1.idx + 1) * (b (toks.length - s1.idx) + 1) ≤ (kk + 1) * (b (kk + 1) + 1) :=
+              Nat.mul_le_mul (by omega) (by omega)
+            simp only [hkk]
+            exact table_arith st0 (by omega) c3 m3
+          · refine ⟨by simp only; omega, a2, ?_, by simp, by simp⟩
+            simp only [hkk, Nat.succ_mul]; omega
+        | raised =>
+          refine ⟨by simp only; omega, a2, ?_, by simp, by simp⟩
+          simp only [hkk, Nat.succ_mul]; omega
+        | internal => exact absurd rfl a5
+        | diverged => exact absurd rfl a4
+
+theorem sound_tableLoop {toks : List Tok} {keys : List Tok} {consume : Bool} {b : Nat → Nat} {entry : Tok → P}
+    {fuel : Nat} (he : ∀ k, Sound toks.length b (entry k)) (mb : BMono b)
+    (hprog : consume = true ∨ ∀ k, Consuming toks.length (entry k)) (hf : toks.length < fuel) :
+    Sound toks.length (fun r => (r + 1) * (b r + 1)) (tableLoopS toks keys consume fuel entry) := by
+  intro s hs
+  exact good_tableLoop he mb hprog fuel .falsy s hs (by omega)
+
 theorem bound_mono (p : Comb) : BMono p.bound := by
   induction p with
   | eps | nothing | tok | tokSet | peek | pair | anyTok | advance | fail => intro a c _; simp [Comb.bound]
@@ -548,6 +778,13 @@ theorem bound_mono (p : Comb) : BMono p.bound := by
   | many p ih =>
     intro a c h; have := ih a c h; simp only [Comb.bound]
     exact Nat.mul_le_mul (by omega) this
+  | textSeq ts adv => intro a c _; simp [Comb.bound]
+  | restOfChunk => intro a c h; simpa [Comb.bound] using h
+  | ifTok ts p q ihp ihq =>
+    intro a c h; have := ihp a c h; have := ihq a c h; simp only [Comb.bound]; omega
+  | tableLoop keys p cns ih =>
+    intro a c h; have := ih a c h; simp only [Comb.bound]
+    exact Nat.mul_le_mul (by omega) (by omega)
 
 /-- the whole contract for well-formed programs, by induction on the program -/
 theorem run_sound (toks : List Tok) (fuel : Nat) (hf : toks.length < fuel) (p : Comb) (hw : p.wf = true) :
@@ -642,6 +879,26 @@ theorem run_sound (toks : List Tok) (fuel : Nat) (hf : toks.length < fuel) (p : 
     simp only [Comb.wf, Bool.and_eq_true] at hw
     obtain ⟨sp, cp⟩ := ih hw.1
     exact ⟨sound_many sp (bound_mono p) (cp hw.2) hf, by simp [Comb.consuming]⟩
+  | textSeq ts adv =>
+    refine ⟨sound_textSeq toks ts adv, ?_⟩
+    intro hc
+    simp only [Comb.consuming, Bool.and_eq_true, Bool.not_eq_true'] at hc
+    obtain ⟨h1, h2⟩ := hc
+    subst h1
+    exact textSeq_consuming toks ts h2
+  | restOfChunk => exact ⟨sound_restOfChunk toks, by simp [Comb.consuming]⟩
+  | ifTok ts p q ihp ihq =>
+    simp only [Comb.wf, Bool.and_eq_true] at hw
+    obtain ⟨sp, _⟩ := ihp hw.1
+    obtain ⟨sq, cq⟩ := ihq hw.2
+    exact ⟨sound_ifTok sp sq (bound_mono p), fun hc => cons_ifTok sp (cq (by simpa [Comb.consuming] using hc))⟩
+  | tableLoop keys p cns ih =>
+    simp only [Comb.wf, Bool.and_eq_true, Bool.or_eq_true] at hw
+    obtain ⟨sp, cp⟩ := ih hw.1
+    refine ⟨sound_tableLoop (entry := fun _ => run toks fuel p) (fun _ => sp) (bound_mono p) ?_ hf, by simp [Comb.consuming]⟩
+    cases hw.2 with
+    | inl h => exact Or.inl h
+    | inr h => exact Or.inr (fun _ => cp h)
 
 
 /-! ### Restoring / Still / Total (no contract needed: these hold for every program and every fuel) -/
@@ -979,7 +1236,12 @@ theorem run_still (toks : List Tok) (fuel : Nat) (p : Comb) (h : p.still = true)
     split at hr
     · simp at hr
     · injection hr with _ e2; subst e2; rfl
-  | tok | tokSet | pair | anyTok | advance | csv | wrapped | many => simp [Comb.still] at h
+  | tok | tokSet | pair | anyTok | advance | csv | wrapped | many | restOfChunk | ifTok | tableLoop =>
+    simp [Comb.still] at h
+  | textSeq ts adv =>
+    simp only [Comb.still, Bool.not_eq_true'] at h
+    subst h
+    exact textSeq_still toks ts
   | andThen p q ihp ihq =>
     simp only [Comb.still, Bool.and_eq_true] at h
     exact andThen_still _ _ (ihp h.1) (ihq h.2)
@@ -1014,8 +1276,14 @@ theorem run_total_val (toks : List Tok) (fuel : Nat) (p : Comb) (h : p.total = t
   | wrapped p o ih =>
     simp only [Comb.total] at h
     exact wrapped_total _ _ _ (ih h)
-  | nothing | tok | tokSet | peek | pair | anyTok | advance | fail | tryParse | csv | many =>
+  | nothing | tok | tokSet | peek | pair | anyTok | advance | fail | tryParse | csv | many | textSeq | tableLoop =>
     simp [Comb.total] at h
+  | restOfChunk =>
+    intro s v s' hr; simp only [run, restOfChunk] at hr
+    injection hr with e1 _; injection e1 with e1; subst e1; rfl
+  | ifTok ts p q ihp ihq =>
+    simp only [Comb.total, Bool.and_eq_true] at h
+    exact ifTok_total _ _ _ _ (ihp h.1) (ihq h.2)
 
 theorem leaf_restoring_match (toks : List Tok) (t : Tok) (adv : Bool) : Restoring (matchTok toks t adv) := by
   intro s v s' hr hv
@@ -1053,7 +1321,14 @@ theorem run_restoring (toks : List Tok) (fuel : Nat) (p : Comb) (h : p.restoring
     split at hr
     · simp at hr
     · injection hr with _ e2; subst e2; rfl
-  | advance | csv | wrapped | many => simp [Comb.restoring] at h
+  | advance | csv | wrapped | many | tableLoop => simp [Comb.restoring] at h
+  | textSeq ts adv => exact textSeq_restoring toks ts adv
+  | restOfChunk =>
+    intro s v s' hr hv; simp only [run, restOfChunk] at hr
+    injection hr with e1 _; injection e1 with e1; subst e1; simp [Val.isTruthy] at hv
+  | ifTok ts p q _ ihq =>
+    simp only [Comb.restoring, Bool.and_eq_true] at h
+    exact ifTok_restoring _ _ _ _ (run_total_val toks fuel p h.1) (ihq h.2)
   | andThen p q ihp ihq =>
     simp only [Comb.restoring, Bool.and_eq_true, Bool.or_eq_true] at h
     refine andThen_restoring _ _ (ihp h.1) ?_
@@ -1107,6 +1382,26 @@ theorem bound_le_poly (p : Comb) (r : Nat) : p.bound r ≤ p.coeff * (r + 1) ^ p
     simp only [Comb.bound, Comb.coeff, Comb.depth]
     calc (r + 1) * p.bound r ≤ (r + 1) * (p.coeff * (r + 1) ^ p.depth) := Nat.mul_le_mul_left _ ih
       _ = p.coeff * (r + 1) ^ (p.depth + 1) := by
+        rw [Nat.pow_succ, Nat.mul_comm (r + 1), Nat.mul_assoc]
+  | textSeq ts adv => simp [Comb.bound, Comb.coeff, Comb.depth]
+  | restOfChunk => simp [Comb.bound, Comb.coeff, Comb.depth]
+  | ifTok ts p q ihp ihq =>
+    simp only [Comb.bound, Comb.coeff, Comb.depth]
+    have h1 : (r + 1) ^ p.depth ≤ (r + 1) ^ max p.depth q.depth :=
+      Nat.pow_le_pow_right (by omega) (Nat.le_max_left _ _)
+    have h2 : (r + 1) ^ q.depth ≤ (r + 1) ^ max p.depth q.depth :=
+      Nat.pow_le_pow_right (by omega) (Nat.le_max_right _ _)
+    have h3 := Nat.mul_le_mul_left p.coeff h1
+    have h4 := Nat.mul_le_mul_left q.coeff h2
+    have h5 := one_le_pow r (max p.depth q.depth)
+    rw [Nat.add_mul, Nat.add_mul]
+    omega
+  | tableLoop keys p cns ih =>
+    simp only [Comb.bound, Comb.coeff, Comb.depth]
+    have h1 := one_le_pow r p.depth
+    have h2 : p.bound r + 1 ≤ (p.coeff + 1) * (r + 1) ^ p.depth := by rw [Nat.add_mul]; omega
+    calc (r + 1) * (p.bound r + 1) ≤ (r + 1) * ((p.coeff + 1) * (r + 1) ^ p.depth) := Nat.mul_le_mul_left _ h2
+      _ = (p.coeff + 1) * (r + 1) ^ (p.depth + 1) := by
         rw [Nat.pow_succ, Nat.mul_comm (r + 1), Nat.mul_assoc]
 
 end SqlglotModel.Cursor
